@@ -388,6 +388,43 @@ def check_reserved_win(ctx, res: Result):
                     earlier_reserved = [j for j, kk in enumerate(n.keys) if j < i and (isinstance(kk, ast.Constant) and kk.value in ("weight", "time", "layer") or kk is None)]
                     found += 1
                     res.check(not earlier_reserved, "S-RESERVED", save.short, norm(n), "order", "the user's metadata is unpacked AFTER the reserved keys: a `weight` / `time` / `layer` entry in the metadata overrides the live value in the file", loc(save, n))
+    # update idiom: `fields = {reserved...}; fields.update(metadata)` - the user's entries are applied LAST and win
+    RES = ("weight", "time", "layer")
+    units = []
+    for f_ in closure(ctx, save):
+        units += [x for x in ast.walk(f_.node) if isinstance(x, (ast.FunctionDef, ast.AsyncFunctionDef))]
+    seen_u = set()
+    for fn in units:
+        if id(fn) in seen_u:
+            continue
+        seen_u.add(id(fn))
+        own = [x for x in walk_no_nested(fn)]
+        kwparam = fn.args.kwarg.arg if fn.args.kwarg else None
+        # call sites of this unit that pass reserved keywords (for a **kwargs parameter)
+        passes_reserved = any(isinstance(c, ast.Call) and isinstance(c.func, ast.Name) and c.func.id == fn.name and any(kw.arg in RES for kw in c.keywords) for c in ast.walk(save.module.tree))
+        for n in own:
+            if not (isinstance(n, ast.Call) and isinstance(n.func, ast.Attribute) and n.func.attr == "update" and isinstance(n.func.value, ast.Name) and len(n.args) == 1 and not n.keywords):
+                continue
+            if not any(isinstance(x, ast.Name) and "meta" in x.id for x in ast.walk(n.args[0])):
+                continue
+            d = n.func.value.id
+            holds_reserved = False
+            for m in own:
+                if getattr(m, "lineno", 0) >= n.lineno:
+                    continue
+                if isinstance(m, ast.Assign) and len(m.targets) == 1:
+                    t = m.targets[0]
+                    if isinstance(t, ast.Name) and t.id == d:
+                        val = m.value
+                        if any(isinstance(x, ast.Constant) and x.value in RES for x in ast.walk(val)) or (kwparam and passes_reserved and any(isinstance(x, ast.Name) and x.id == kwparam for x in ast.walk(val))):
+                            holds_reserved = True
+                        elif any(isinstance(x, ast.Name) and "meta" in x.id for x in ast.walk(val)):
+                            holds_reserved = False
+                    if isinstance(t, ast.Subscript) and isinstance(t.value, ast.Name) and t.value.id == d and isinstance(t.slice, ast.Constant) and t.slice.value in RES:
+                        holds_reserved = True
+            if holds_reserved:
+                found += 1
+                res.violation("S-RESERVED", save.short, norm(n), "order", f"`{d}` already holds the reserved keys when the user's metadata is merged into it with update(): a `weight` / `time` / `layer` entry in the metadata overrides the live value in the file", loc(save, n))
     # subscript-store idiom: metadata = dict(metadata); metadata["weight"] = hypergraph.get_weight(...)
     for n in ast.walk(save.node):
         if isinstance(n, ast.Assign) and len(n.targets) == 1 and isinstance(n.targets[0], ast.Subscript) and isinstance(n.targets[0].slice, ast.Constant) and n.targets[0].slice.value in ("weight", "time", "layer"):
